@@ -1,7 +1,7 @@
 #!/venv/bin/python
 """Run the checks against every seeded change under /verif/seeded (on scratch copies, /repo is not touched).
 
-usage: seed_eval.py [--all-props] [seed-id ...]
+usage: seed_eval.py [--all-props] [--write] [seed-id ...]
 Prints one line per seed: which properties' checks report a violation (and the rules), or MISSED.
 Writes /verif/seeded/RESULTS.json.
 """
@@ -62,8 +62,11 @@ def main():
     if args:
         seeds = [s for s in seeds if s in args]
     jobs = []
+    want_props = [a[8:].split(',') for a in sys.argv[1:] if a.startswith('--props=')]
     for s in seeds:
         meta = json.load(open(os.path.join(SEEDED, s, 'meta.json')))
+        if want_props and meta['property'] not in want_props[0]:
+            continue
         jobs.append((s, ALL if allp else [meta['property']], '/repo'))
     out = {}
     with ProcessPoolExecutor(max_workers=16) as ex:
@@ -79,7 +82,7 @@ def main():
                 print('      ', own[1][0][2][:300])
             out[sid] = {'property': prop, 'own': own[0], 'rules': sorted(set(r for r, _, _ in own[1])),
                         'details': [list(x) for x in own[1][:4]], 'also_caught_by': others}
-    if not args:
+    if not args and '--write' in sys.argv:
         with open(os.path.join(SEEDED, 'RESULTS.json'), 'w') as f:
             json.dump(out, f, indent=1, sort_keys=True)
     n = len(out)
